@@ -157,7 +157,9 @@ def theorems_of(mod):
         m = re.match(r"\s*end\s+([\w.]+)", line)
         if m and ns and ns[-1] == m.group(1):
             ns.pop()
-        m = re.match(r"\s*(?:@\[[^\]]*\]\s*)?(?:private\s+|protected\s+)?theorem\s+([\w.']+)", line)
+        # private theorems cannot be named from the audit file; their axioms are reported
+        # through the public theorems that use them
+        m = re.match(r"\s*(?:@\[[^\]]*\]\s*)?(?:protected\s+)?theorem\s+([\w.']+)", line)
         if m:
             res.append((".".join(ns + [m.group(1)]), ln))
     return res
